@@ -248,6 +248,7 @@ def uuid_part(res, work, tier, rng):
     hs = []
     for ns in ["nil", "dns", "max", "6ba7b811-9dad-11d1-80b4-00c04fd430c8"]:
         hs.append({"ns": ns, "threads": [2, 2, 2], "sched": {"mode": "all", "max": 200 if tier == "quick" else 5000}})
+        hs.append({"ns": ns, "ctor": "serde", "threads": [2, 2], "sched": {"mode": "pct", "seed": seed() + 9, "runs": 5}})
         hs.append({"ns": ns, "threads": [3, 1, 2, 2], "sched": {"mode": "pct", "seed": seed() + 5, "runs": 50 if tier == "quick" else 1000}})
     # "for every number of calls": counters positioned (through the generator's serde form) just below
     # every change of the number of decimal digits and below the binary boundaries
